@@ -78,6 +78,8 @@ def key_of(v):
     if isinstance(v, FuncVal):
         return ("f", id(v.node))
     if isinstance(v, Builtin):
+        if v.name in ("int", "str", "bool", "float", "list", "tuple", "set", "dict", "type", "object", "frozenset", "bytes"):
+            return ("k", v.name)
         return ("b", v.name)
     if isinstance(v, SV):
         t = z3.simplify(v.t)
